@@ -4,6 +4,8 @@
 # 1. (optional) confirms the demonstration: passes without the patch, fails with it;
 # 2. applies the patch there and runs the property's quick check with VERIF_REPO pointing at the worktree.
 # Evidence and replays of the mutated run go to scratch directories, not to /verif/evidence or /verif/replays.
+# Packages whose own _test.go files do not build (consensus/vbft, txnpool/common): set SEED_MASK_TESTS=1 to run the
+# demonstration with a build overlay that masks the package's existing test files.
 set -u
 PROP="$1"; PATCH="$(readlink -f "$2")"; DEMO="${3:-}"; PKG="${4:-}"; RUN="${5:-.}"
 [ -n "$DEMO" ] && DEMO="$(readlink -f "$DEMO")"
@@ -11,14 +13,27 @@ export GOFLAGS=-mod=mod GOPROXY=off GOSUMDB=off GOTOOLCHAIN=local
 cd "$(dirname "$0")/.."
 WT=$(mktemp -d /tmp/seedwt.XXXXXX); rmdir "$WT"
 git -C /repo worktree add --detach "$WT" HEAD >/dev/null 2>&1 || { echo "cannot create worktree"; exit 2; }
-trap 'git -C /repo worktree remove --force "$WT" >/dev/null 2>&1' EXIT
+trap 'git -C /repo worktree remove --force "$WT" >/dev/null 2>&1; rm -f /tmp/seed_eval_ov.$$.json' EXIT
+OVERLAY=""
 if [ -n "$DEMO" ]; then
-  mkdir -p "$WT/$PKG"; cp "$DEMO" "$WT/$PKG/zz_seed_demo_test.go"
-  (cd "$WT" && go test -vet=off -count=1 -run "$RUN" "./$PKG/" >/tmp/seed_eval_clean.log 2>&1); CLEAN=$?
+  mkdir -p "$WT/$PKG"
+  if [ -n "${SEED_MASK_TESTS:-}" ]; then
+    python3 - "$WT/$PKG" "$DEMO" /tmp/seed_eval_ov.$$.json <<'PY'
+import json, glob, os, sys
+d, demo, out = sys.argv[1:4]
+rep = {f: "" for f in glob.glob(os.path.join(d, "*_test.go"))}
+rep[os.path.join(d, "zz_seed_demo_test.go")] = demo
+json.dump({"Replace": rep}, open(out, "w"))
+PY
+    OVERLAY="-overlay /tmp/seed_eval_ov.$$.json"
+  else
+    cp "$DEMO" "$WT/$PKG/zz_seed_demo_test.go"
+  fi
+  (cd "$WT" && go test $OVERLAY -vet=off -count=1 -timeout 300s -run "$RUN" "./$PKG/" >/tmp/seed_eval_clean.log 2>&1); CLEAN=$?
 fi
 (cd "$WT" && git apply "$PATCH") || { echo "patch does not apply"; exit 2; }
 if [ -n "$DEMO" ]; then
-  (cd "$WT" && go test -vet=off -count=1 -run "$RUN" "./$PKG/" >/tmp/seed_eval_patched.log 2>&1); PATCHED=$?
+  (cd "$WT" && go test $OVERLAY -vet=off -count=1 -timeout 300s -run "$RUN" "./$PKG/" >/tmp/seed_eval_patched.log 2>&1); PATCHED=$?
   rm -f "$WT/$PKG/zz_seed_demo_test.go"
   (cd "$WT" && git checkout -- go.mod go.sum 2>/dev/null)
   echo "demo: clean_exit=$CLEAN patched_exit=$PATCHED (want 0 / non-zero)"
@@ -26,5 +41,5 @@ if [ -n "$DEMO" ]; then
 fi
 OUT=$(VERIF_REPO="$WT" VERIF_EVIDENCE_DIR=/tmp/seed-evidence VERIF_REPLAY_DIR=/tmp/seed-replays ./check "$PROP" --tier quick 2>&1)
 echo "$OUT" | grep -E '^(VIOLATION|OK|KNOWN)' | head -8
-if echo "$OUT" | grep -q '^VIOLATION'; then echo "SEED-DETECTED $PROP"; else echo "SEED-MISSED $PROP"; fi
+if echo "$OUT" | grep -q '^VIOLATION'; then echo "SEED-DETECTED $PROP"; else echo "SEED-MISSED $PROP"; echo "$OUT" | tail -3; fi
 rm -rf /tmp/seed-evidence /tmp/seed-replays
